@@ -12,6 +12,7 @@ import (
 func init() {
 	gldap.VReg("H_TD_C20_step", H_TD_C20_step)
 	gldap.VReg("H_TD_C20_seq", H_TD_C20_seq)
+	gldap.VReg("H_TD_C20_multichange", H_TD_C20_multichange)
 }
 
 // DN pool: none is a substring of another.
@@ -149,8 +150,14 @@ const (
 
 // one operation with symbolic arguments on (d, ref); ref is updated to the reference post-state
 func vStep(d *Directory, ref []*refEntry, n string) []*refEntry {
-	op := gldap.VLen(n+".op", opKinds-1)
-	k := gldap.VLen(n+".target", len(vUserPool)-1)
+	op := vForceOp
+	if op < 0 {
+		op = gldap.VLen(n+".op", opKinds-1)
+	}
+	k := vForceTarget
+	if k < 0 {
+		k = gldap.VLen(n+".target", len(vUserPool)-1)
+	}
 	dn := vUserPool[k]
 	cur := refFind(ref, dn)
 	switch op {
@@ -192,13 +199,26 @@ func vStep(d *Directory, ref []*refEntry, n string) []*refEntry {
 			ref = nr
 		}
 	case opModify:
-		mop := int64(gldap.VLen(n+".mod", 2)) // 0 add, 1 delete, 2 replace
-		typ := []string{"mail", "description"}[gldap.VLen(n+".attr", 1)]
-		nv := gldap.VLen(n+".nvals", 2)
-		v0, v1 := gldap.VStr(n+".v0"), gldap.VStr(n+".v1")
-		gldap.VAssume(len(v0) < 10 && len(v1) < 10)
-		vals := []string{v0, v1}[:nv]
-		x := gldap.VModifyExchange(7, dn, mop, typ, vals)
+		nch := 1 + vExtraChanges // one Modify request with 1 (or, in the multi-change harness, 2) changes
+		var mops []int64
+		var typs []string
+		var valss [][]string
+		for c := 0; c < nch; c++ {
+			cn := fmt.Sprintf("%s.c%d", n, c)
+			mops = append(mops, int64(gldap.VLen(cn+".mod", 2))) // 0 add, 1 delete, 2 replace
+			typs = append(typs, []string{"mail", "description"}[gldap.VLen(cn+".attr", 1)])
+			maxV := 2
+			if c > 0 {
+				maxV = 1
+			}
+			nv := gldap.VLen(cn+".nvals", maxV)
+			var vals []string
+			for k := 0; k < nv; k++ {
+				vals = append(vals, vShortStr(fmt.Sprintf("%s.v%d", cn, k)))
+			}
+			valss = append(valss, vals)
+		}
+		x := gldap.VModifyExchangeN(7, dn, mops, typs, valss)
 		d.handleModify(vT{})(x.W, x.Req)
 		rs := x.Responses()
 		gldap.VAssert(len(rs) == 1 && rs[0].App == gldap.ApplicationModifyResponse && rs[0].ID == 7, n+": one ModifyResponse")
@@ -210,23 +230,26 @@ func vStep(d *Directory, ref []*refEntry, n string) []*refEntry {
 			return ref
 		}
 		gldap.VAssert(rs[0].Code == gldap.ResultSuccess, n+": modifying a present entry succeeds")
-		i := cur.find(typ)
-		switch mop {
-		case gldap.AddAttribute:
-			if i >= 0 {
-				cur.attrs[i].vals = append(append([]string{}, cur.attrs[i].vals...), vals...)
-			} else {
-				cur.attrs = append(cur.attrs, refAttr{typ, vals})
-			}
-		case gldap.DeleteAttribute:
-			if i >= 0 {
-				cur.attrs = append(append([]refAttr{}, cur.attrs[:i]...), cur.attrs[i+1:]...)
-			}
-		case gldap.ReplaceAttribute:
-			if i >= 0 {
-				cur.attrs[i].vals = vals
-			} else {
-				cur.attrs = append(cur.attrs, refAttr{typ, vals})
+		for c := 0; c < nch; c++ {
+			typ, vals := typs[c], valss[c]
+			i := cur.find(typ)
+			switch mops[c] {
+			case gldap.AddAttribute:
+				if i >= 0 {
+					cur.attrs[i].vals = append(append([]string{}, cur.attrs[i].vals...), vals...)
+				} else {
+					cur.attrs = append(cur.attrs, refAttr{typ, vals})
+				}
+			case gldap.DeleteAttribute:
+				if i >= 0 {
+					cur.attrs = append(append([]refAttr{}, cur.attrs[:i]...), cur.attrs[i+1:]...)
+				}
+			case gldap.ReplaceAttribute:
+				if i >= 0 {
+					cur.attrs[i].vals = vals
+				} else {
+					cur.attrs = append(cur.attrs, refAttr{typ, vals})
+				}
 			}
 		}
 	case opSearch:
@@ -237,6 +260,8 @@ func vStep(d *Directory, ref []*refEntry, n string) []*refEntry {
 
 // C20 (inductive step): from an arbitrary valid store, one operation behaves
 // like the reference store; checked through later searches of every pool entry.
+var vExtraChanges = 0
+
 func H_TD_C20_step() {
 	gldap.VSummarise("encodeInteger")
 	d, ref := vStore()
@@ -260,3 +285,20 @@ func H_TD_C20_seq() {
 	}
 	gldap.VReach("seq")
 }
+
+// one Modify request carrying two changes against a present entry: the changes
+// are applied in order, each to its own attribute
+func H_TD_C20_multichange() {
+	gldap.VSummarise("encodeInteger")
+	vExtraChanges = 1
+	vForceOp, vForceTarget = opModify, 0
+	d, ref := vStore()
+	gldap.VAssume(refFind(ref, vUserPool[0]) != nil)
+	ref = vStep(d, ref, "s")
+	for k := range vUserPool {
+		checkSearch(d, ref, k, fmt.Sprintf("after: entry %d", k))
+	}
+	gldap.VReach("multichange")
+}
+
+var vForceOp, vForceTarget = -1, -1
